@@ -281,4 +281,18 @@ def TtlConfig.minGtMax (cfg : TtlConfig) : Bool := !cfg.durOK
 `u32` pair of some bounds is not (`max ≥ 2^32 s` falls back to `MAX_TTL` while `min > MAX_TTL`). -/
 def TtlConfig.secsInverted (cfg : TtlConfig) : Bool := cfg.durOK && !cfg.secsOK
 
+/-- some configured bound of these `TtlBounds` is `2^32 s` or more -/
+def Bounds.overU32 (b : Bounds) : Bool :=
+  [b.posMin, b.posMax, b.negMin, b.negMax].any fun x =>
+    match x with
+    | some v => decide (4294967296 * NS ≤ v)
+    | none => false
+
+/-- class `C15.bounds-over-u32` (known finding): some configured bound is `≥ 2^32 s`.  Such
+durations are documented as harmless, but `positive_ttl_bounds_secs` replaces them by `MAX_TTL`
+(one day) — which can invert the pair (panic in `u32::clamp`) or cut record TTLs that lie inside
+the configured range — and a lifetime that large can overflow `Instant`. -/
+def TtlConfig.overU32 (cfg : TtlConfig) : Bool :=
+  cfg.default.overU32 || cfg.byType.any fun p => p.2.overU32
+
 end HickoryVerif.Cache
